@@ -377,6 +377,7 @@ def c11(res):
     for rec, t, prev, d, vars_ in Walk(res):
         if rec["op"] != "get" or prev is None: continue
         k = t[1]; a = t[2:]
+        if k.startswith("nc"): k = k[2:]        # non-const accessors: same contract as the const ones
         D = prev
         def oor(): return ("T", "out_of_range")
         def inv(): return ("T", "invalid_argument")
